@@ -67,7 +67,7 @@ func zeros(n int) string {
 	return string(b)
 }
 
-var int64Edges = []int64{0, 1, -1, 9, 10, 99, 100, 1<<63 - 1, -1 << 63, -1<<63 + 1, 1<<62, 999999999999999999, 1000000000000000000, 1000000000000000001, 9223372036854775807, 123456789012345678}
+var int64Edges = []int64{0, 1, -1, 9, 10, 99, 100, 1<<63 - 1, -1 << 63, -1<<63 + 1, 1 << 62, 999999999999999999, 1000000000000000000, 1000000000000000001, 9223372036854775807, 123456789012345678}
 
 func genInt64(t *rapid.T, label string) int64 {
 	switch rapid.IntRange(0, 3).Draw(t, label+".cls") {
